@@ -177,19 +177,30 @@ def gen(repo: Path) -> str:
     if default_age is None or regex is None:
         raise Untranslatable("DEFAULT_MAX_AGE / CACHE_CONTROL_RE not found")
 
-    def needles(fn_name: str):
+    def validity(fn_name: str):
+        """header names the validity test reads, and the function it hands the location to"""
         fn = _func(lst, fn_name)
-        ins = [n.left.value for n in ast.walk(fn) if isinstance(n, ast.Compare) and len(n.ops) == 1 and isinstance(n.ops[0], ast.In)
-               and isinstance(n.left, ast.Constant) and isinstance(n.left.value, str)]
-        sw = [c.args[0].value for c in _calls(fn, "startswith") if c.args and isinstance(c.args[0], ast.Constant)]
         keys = [c.args[0].value for c in _calls(fn, "get_lower") if c.args and isinstance(c.args[0], ast.Constant)]
-        return ins, sw, keys
+        tests = [c.func.id for c in ast.walk(fn) if isinstance(c, ast.Call) and isinstance(c.func, ast.Name)
+                 and len(c.args) == 1 and isinstance(c.args[0], ast.Name) and c.args[0].id == "location"]
+        if any(isinstance(n, ast.Compare) and isinstance(n.ops[0], ast.In) for n in ast.walk(fn)) or _calls(fn, "startswith"):
+            raise Untranslatable(f"{fn_name}: inline location test (substring / prefix) instead of one call on `location`")
+        return keys, tests
 
-    s_in, s_sw, s_keys = needles("valid_search_headers")
-    a_in, a_sw, a_keys = needles("valid_advertisement_headers")
-    _, _, b_keys = needles("valid_byebye_headers")
-    if s_in != a_in or s_sw != a_sw or len(s_sw) != 1:
-        raise Untranslatable("valid_search_headers / valid_advertisement_headers: location tests differ or are not one startswith + needles")
+    s_keys, s_tests = validity("valid_search_headers")
+    a_keys, a_tests = validity("valid_advertisement_headers")
+    b_keys, b_tests = validity("valid_byebye_headers")
+    if s_tests != a_tests or len(s_tests) != 1 or b_tests:
+        raise Untranslatable("valid_search_headers / valid_advertisement_headers: not exactly one (the same) location test; or byebye tests a location")
+    # the location test itself must not let anything escape: every raising call in it under a ValueError handler
+    lt = _func(lst, s_tests[0])
+    for nm in ("urlparse", "urlsplit", "ip_address"):
+        for c in _calls(lt, nm):
+            if not (_caught_at(lt, c) & VALUE_ERR):
+                raise Untranslatable(f"{s_tests[0]}: {nm}(...) is not under `except ValueError` (model assumes it is)")
+    for n in ast.walk(lt):
+        if isinstance(n, ast.Attribute) and n.attr in ("hostname", "port") and isinstance(n.ctx, ast.Load) and n.attr == "port":
+            raise Untranslatable(f"{s_tests[0]}: reads .port")
 
     # --- _see_device order
     sd = _func(_class(lst, "SsdpDeviceTracker"), "_see_device")
@@ -266,8 +277,7 @@ def gen(repo: Path) -> str:
     o.append(f"def cacheControlRe : String := {lean_str(regex)}\n")
     o.append(f"def cacheControlReBytes : List Nat := {_bytes_lit(regex.encode())}\n")
     o.append(f"def cacheControlReFlags : List String := [{', '.join(lean_str(f) for f in regex_flags)}]\n")
-    o.append(f"def locationPrefix : List Nat := {_bytes_lit(s_sw[0].encode())}\n")
-    o.append("def badLocationNeedles : List (List Nat) := [" + ", ".join(_bytes_lit(x.encode()) for x in s_in) + "]\n")
+    o.append(f"def locationTest : List Nat := {_bytes_lit(s_tests[0].encode())}\n")
     o.append("def searchKeys : List (List Nat) := [" + ", ".join(_bytes_lit(k.encode()) for k in s_keys) + "]\n")
     o.append("def advertisementKeys : List (List Nat) := [" + ", ".join(_bytes_lit(k.encode()) for k in a_keys) + "]\n")
     o.append("def byebyeKeys : List (List Nat) := [" + ", ".join(_bytes_lit(k.encode()) for k in b_keys) + "]\n")
